@@ -324,6 +324,13 @@ def run(E: Engine, rep: Report, tier: str) -> dict:
                 rep.check(not raw, "TABLE", f"{f_.short}|{c_.name}.{k_}|decoded-as-tuple", f"{c_.name}.{k_}: {ann} receives a tuple", f"{f_.short} builds {c_.name}({k_}=`{_show_(v_)[:60]}`): the field is declared `{ann}` but the decoded JSON array (a list) is passed as it is, so the decoded object differs from the original in that field (== fails on a dataclass, and the object is unhashable)", E.where(f_, l.node))
     if n_tup < 1:
         raise AnalysisError("anchor: no decoder call passing a tuple-annotated field was found (expected Results._from_abstract_repr: atom_order)")
+    # weight maps (detuning maps) exist in 2D and 3D like layouts: their abstract representation writes every coordinate
+    # of a trap (RegisterLayout writes the coordinate rows whole); unpacking `(x, y)` fails on a 3D map
+    wm_f = E.method("pulser.register.weight_maps.WeightMap", "_to_abstract_repr")
+    src_wm = ast.unparse(wm_f.node)
+    two_d_only = any(isinstance(n_, (ast.Tuple,)) and isinstance(n_.ctx, ast.Store) and [getattr(e_, "id", None) for e_ in n_.elts] == ["x", "y"] for n_ in ast.walk(wm_f.node))
+    rep.check(not two_d_only, "TABLE", "WeightMap._to_abstract_repr|all-coordinates-written", "no `(x, y)` unpacking of a trap's coordinates",
+              "WeightMap._to_abstract_repr unpacks every trap as (x, y): a detuning map defined on a 3D register / layout (supported by define_detuning_map, sampled and legacy-encoded fine) makes Sequence.to_abstract_repr() raise 'too many values to unpack'", E.where(wm_f))
     # decoder side of the same clause: whether an optional key is *present* is asked with `key in obj`.  Taking the
     # truthiness of the stored value instead (`if obj.get(key):`) treats an empty list / 0 / False as absent and falls
     # back to the class default.  On the tree the only JSON values used as conditions are booleans (table below).
